@@ -356,8 +356,11 @@ func c04Layout(r *core.Report) {
 		// version byte index
 		verIdx := int64(-1)
 		ast.Inspect(hl.Body, func(n ast.Node) bool {
-			if be, ok := n.(*ast.BinaryExpr); ok && be.Op == token.NEQ && strings.Contains(core.ExprStr(be.Y), "Version") {
+			if be, ok := n.(*ast.BinaryExpr); ok && be.Op == token.NEQ && (strings.Contains(core.ExprStr(be.Y), "Version") || strings.Contains(core.ExprStr(be.X), "Version")) {
 				lhs := core.Unparen(be.X)
+				if strings.Contains(core.ExprStr(be.X), "Version") {
+					lhs = core.Unparen(be.Y)
+				}
 				if o := core.ObjOf(li, lhs); o != nil {
 					// `if version := buf[24]; version != Version`
 					if d := singleDefOrInit(hl, o); d != nil {
@@ -678,8 +681,12 @@ func c04ReaderCapsCoverWriter(r *core.Report) {
 		want := core.ExprStr(arg)
 		var found int64 = -1
 		ast.Inspect(mb.Body, func(m ast.Node) bool {
-			be, ok := m.(*ast.BinaryExpr)
-			if !ok || be.Op != token.GTR {
+			be0, ok := m.(*ast.BinaryExpr)
+			if !ok {
+				return true
+			}
+			be := constOnRight(minfo, be0)
+			if be.Op != token.GTR {
 				return true
 			}
 			tv, ok := minfo.Types[be.Y]
